@@ -6,6 +6,14 @@ pub struct BoundingBox {
     max: FPCoordinate,
 }
 
+#[cfg(feature = "verif")]
+impl BoundingBox {
+    /// verification hook: (min lat, min lon, max lat, max lon)
+    pub fn verif_corners(&self) -> [i32; 4] {
+        [self.min.lat, self.min.lon, self.max.lat, self.max.lon]
+    }
+}
+
 impl BoundingBox {
     pub fn from_coordinates(coordinates: &[FPCoordinate]) -> BoundingBox {
         debug_assert!(!coordinates.is_empty());
